@@ -338,11 +338,22 @@ fn run_task(args: &Args) {
                 Some(ls) => ls[k].clone(),
                 None => h.gen_line(crng.as_mut().unwrap()),
             };
-            let (nl, outs) = h.exec(&l);
-            writeln!(ops, "{}", nl).unwrap();
-            writeln!(imp, "> {}", nl).unwrap();
-            for o in outs {
-                writeln!(imp, "{}", o).unwrap();
+            let r = std::panic::catch_unwind(std::panic::AssertUnwindSafe(|| h.exec(&l)));
+            match r {
+                Ok((nl, outs)) => {
+                    writeln!(ops, "{}", nl).unwrap();
+                    writeln!(imp, "> {}", nl).unwrap();
+                    for o in outs {
+                        writeln!(imp, "{}", o).unwrap();
+                    }
+                }
+                Err(_) => {
+                    // a panic outside the guarded accessor calls (e.g. inside get_task): the case ends here
+                    writeln!(ops, "{}", l).unwrap();
+                    writeln!(imp, "> {}", l).unwrap();
+                    writeln!(imp, "panic:{}", l.split_whitespace().next().unwrap_or("?")).unwrap();
+                    break;
+                }
             }
         }
         for (k, v) in h.stats.iter() {
